@@ -105,14 +105,22 @@ Print Assumptions C08_lint_ok_shape.
 
 (* location: the repaired formatting never fails, never emits an empty alternative list, and
    agrees with the pinned formatting wherever that one does not fail; the pinned one fails (F17) *)
-Theorem C08_location_shape : forall res,
-  forallb loc_wf (format_fixed res) = true /\
+Theorem C08_location_shape : forall cur res,
+  forallb loc_wf (format_fixed cur res) = true /\
   forall out, (forall ds, In (EAlts ds) res -> ds <> []) ->
-              format_as_is res = inr out -> format_fixed res = out.
-Proof. intros res. split; [apply format_fixed_wf|intros out; apply format_fixed_conservative]. Qed.
+              format_as_is cur res = inr out -> format_fixed cur res = out.
+Proof. intros cur res. split; [apply format_fixed_wf|intros out; apply format_fixed_conservative]. Qed.
 Print Assumptions C08_location_shape.
 
-Theorem C08_location_refuted : exists res, format_as_is res = inl LAttributeError.
+(* the reported column (F51): shifted back by the length of the cursor mark exactly for declarations
+   of the edited text on the cursor's line right of the cursor, unchanged otherwise *)
+Theorem C08_location_unmark : forall cur l c e,
+  (e = true /\ l = fst cur /\ (snd cur < c)%Z -> unmark cur l c e = (c - mark_len)%Z) /\
+  (e = false \/ l <> fst cur \/ (c <= snd cur)%Z -> unmark cur l c e = c).
+Proof. exact unmark_spec. Qed.
+Print Assumptions C08_location_unmark.
+
+Theorem C08_location_refuted : forall cur, exists res, format_as_is cur res = inl LAttributeError.
 Proof. exact format_as_is_refuted. Qed.
 Print Assumptions C08_location_refuted.
 
@@ -151,6 +159,7 @@ Example C08_example_lint :
   lint (ParseErr [105; 110]%N (Some 1%Z) (Some 3%Z) ) [FUndefined 1 0] =
     [{| d_code := E01; d_msg := [105; 110]%N; d_line := Some 1%Z; d_col := Some 3%Z |}] /\
   count_code E01 (lint ParseOk [FUndefined 1 0; FUnusedImport 2 7]) = 0 /\
-  format_fixed [EOne Unlocated; EOne (Located 1 7 (Some 0)); EAlts [Unlocated; Located 2 0 None]] =
-    [LOne 1 7 (Some 0); LAlts [(2%Z, 0%Z, None)]].
+  format_fixed (1%Z, 3%Z) [EOne Unlocated; EOne (Located 1 20 (Some 0) true); EOne (Located 1 20 (Some 1) false);
+                            EAlts [Unlocated; Located 2 0 None true]] =
+    [LOne 1 7 (Some 0); LOne 1 20 (Some 1); LAlts [(2%Z, 0%Z, None)]].
 Proof. vm_compute. repeat split; reflexivity. Qed.
